@@ -20,6 +20,7 @@ import (
 	"google.golang.org/grpc/metadata"
 	"google.golang.org/grpc/status"
 	"google.golang.org/protobuf/encoding/protojson"
+	"google.golang.org/protobuf/encoding/protowire"
 	"google.golang.org/protobuf/proto"
 
 	"verif/internal/vschema"
@@ -500,7 +501,19 @@ func runHTTP(ctx context.Context, hc *http.Client, base string, s *Script, callI
 		u := base + pathOf[s.Shape] + "/" + callID + "?script=" + url.QueryEscape(reqs[0].Script)
 		req, err = http.NewRequestWithContext(ctx, "GET", u, nil)
 	} else {
-		rd, berr := requestBody(ctx, s, reqs, func(_ int, c chunk) ([]byte, error) { return s.jsonOf(c) }, s.Gzip)
+		enc := func(_ int, c chunk) ([]byte, error) { return s.jsonOf(c) }
+		if s.ProtoBody {
+			// application/protobuf: the message itself, or - for a streamed
+			// request - varint-delimited messages
+			enc = func(_ int, c chunk) ([]byte, error) {
+				b, err := proto.Marshal(c.msg())
+				if err != nil || s.Shape == "unary" {
+					return b, err
+				}
+				return append(protowire.AppendVarint(nil, uint64(len(b))), b...), nil
+			}
+		}
+		rd, berr := requestBody(ctx, s, reqs, enc, s.Gzip)
 		if berr != nil {
 			t.TransportErr = "marshal: " + berr.Error()
 			return t
@@ -508,6 +521,9 @@ func runHTTP(ctx context.Context, hc *http.Client, base string, s *Script, callI
 		req, err = http.NewRequestWithContext(ctx, "POST", base+pathOf[s.Shape], rd)
 		if req != nil {
 			req.Header.Set("Content-Type", "application/json")
+			if s.ProtoBody {
+				req.Header.Set("Content-Type", "application/protobuf")
+			}
 			if s.Gzip {
 				// compression is per stream on the HTTP front
 				req.Header.Set("Content-Encoding", "gzip")
@@ -519,6 +535,9 @@ func runHTTP(ctx context.Context, hc *http.Client, base string, s *Script, callI
 		return t
 	}
 	req.Header.Set("Accept", "application/json")
+	if s.ProtoBody {
+		req.Header.Set("Accept", "application/protobuf")
+	}
 	setHop(req.Header, s.Hop)
 	req.Header.Set("X-Vf-Id", callID)
 	if s.MetaPlan {
@@ -538,6 +557,25 @@ func runHTTP(ctx context.Context, hc *http.Client, base string, s *Script, callI
 		t.TimedOut = ctx.Err() != nil
 	}
 	t.HTTPStatus = resp.StatusCode
+	if s.ProtoBody {
+		// unary / client-streaming only: one reply, or one google.rpc.Status
+		if resp.StatusCode != 200 {
+			st := &spb.Status{}
+			if err := proto.Unmarshal(body, st); err != nil {
+				t.BodyErr = fmt.Sprintf("error body (%s) is not a protobuf google.rpc.Status: %v (%.80q)", resp.Header.Get("Content-Type"), err, body)
+				return t
+			}
+			t.Code, t.Msg, t.Details = st.Code, st.Message, detailStrings(st)
+			return t
+		}
+		m := vschema.NewMsg(chunkMD)
+		if err := proto.Unmarshal(body, m); err != nil {
+			t.BodyErr = fmt.Sprintf("reply (%s) does not decode: %v", resp.Header.Get("Content-Type"), err)
+			return t
+		}
+		t.Responses = append(t.Responses, readChunk(m).sum(callID))
+		return t
+	}
 	dec := json.NewDecoder(bytes.NewReader(body))
 	var objs []json.RawMessage
 	for {
